@@ -51,7 +51,9 @@ package verifspec
 //@   ghost log = 0
 //@   loop 1 assigns gls.byImplementation, gls.byReference
 //@   loop 1 invariant 0 <= $i1 && $i1 <= len(pkgs) && glsAdded == $i1
+//@   loop 2 assigns sel.byFilter, sel.pendingDecls
 //@   loop 2 invariant glsAdded == len(pkgs)
+//@   loop 3 assigns sel.byFilter, sel.pendingDecls
 //@   loop 3 invariant glsAdded == len(pkgs)
 //@   oncall IsImplementation: assert glsAdded == len(pkgs)
 //@   oncall Include: assert glsAdded == len(pkgs)
